@@ -64,6 +64,23 @@ def meta_scenarios():
                  [{"op": "solve", "e": 1, "r": 1, "goal": g, "qnv": qnv, "k": 0}],
                  [{"op": "solve", "e": 1, "r": 2, "goal": C("nat", V(0)), "qnv": 1, "k": 0}]]
         scns.append({"scripts": {"P": script}, "steps": steps, "keys": [{"n": "nat", "k": 1}]})
+    # definitions chained after a native predicate (non-overwrite load), for both yield values, and a
+    # zero-argument predicate supplied by a generic *args function under an explicit arity 0
+    extra = {"nat/1": [clause(C("nat", I(9)))], "zero/0": [clause(A("zero"))],
+             "usez/1": [clause(C("usez", X), or_(then(call(A("zero")), call(C("=", X, A("yes")))), call(C("=", X, A("no")))))]}
+    for yields in (True, False):
+        for ar_style in ("explicit-varargs", "explicit", "inferred"):
+            steps = [[{"op": "register", "e": 1, "name": "nat", "arity": 1, "style": "explicit", "fid": "nat", "rows": rows1, "raise": {"call": 0, "row": 0}, "yields": yields}],
+                     [{"op": "register", "e": 1, "name": "zero", "arity": 0, "style": ar_style, "fid": "zero", "rows": [{"args": [], "nv": 0}], "raise": {"call": 0, "row": 0}, "yields": yields}],
+                     [{"op": "solve", "e": 1, "r": 1, "goal": A("zero"), "qnv": 0, "k": 0}],
+                     [{"op": "solve", "e": 1, "r": 2, "goal": C("zero", V(0)), "qnv": 1, "k": 0}],
+                     [{"op": "load", "e": 1, "script": "X", "ow": False}],
+                     [{"op": "solve", "e": 1, "r": 3, "goal": C("nat", V(0)), "qnv": 1, "k": 0}],
+                     [{"op": "solve", "e": 1, "r": 4, "goal": A("zero"), "qnv": 0, "k": 0}],
+                     [{"op": "solve", "e": 1, "r": 5, "goal": C("usez", V(0)), "qnv": 1, "k": 0}],
+                     [{"op": "load", "e": 1, "script": "X", "ow": True}],
+                     [{"op": "solve", "e": 1, "r": 6, "goal": C("nat", V(0)), "qnv": 1, "k": 0}]]
+            scns.append({"scripts": {"P": script, "X": extra}, "steps": steps, "keys": []})
     return scns
 
 
